@@ -1191,6 +1191,32 @@ func main() {
 		}
 	}
 
+	// a long life in one process: the key-exchange wrapper used many hundred times over (whatever it keeps between calls -
+	// a buffered random source, a pooled buffer, a counter - is used up, refilled or wraps somewhere on the way); payloads of
+	// the size of client_DH_inner_data (304 bytes: 12 padding bytes), of one byte (11), and small random ones
+	{
+		g.newSeq()
+		r := rng.Fork(0x50a4)
+		soak := 1300
+		if thorough {
+			soak = 6000
+		}
+		n, s := nonce(r, 32, 0), nonce(r, 16, 0)
+		for i := 0; i < soak; i++ {
+			var payload []byte
+			switch i % 3 {
+			case 0:
+				payload = r.Bytes(304)
+			case 1:
+				payload = r.Bytes(1)
+			default:
+				payload = r.Bytes(r.Intn(40))
+			}
+			g.step("enc", vc.Hex(n), vc.Hex(s), vc.Hex(payload))
+			g.stat("soak_calls")
+		}
+	}
+
 	g.o.Close()
 	for _, k := range g.order {
 		fmt.Printf("stat\t%s\t%d\n", k, g.stats[k])
